@@ -1,6 +1,7 @@
 package vk
 
 import (
+	"crypto/sha256"
 	"fmt"
 	"sync"
 
@@ -210,6 +211,20 @@ func c11Ops(w *World, d dualAuth, rng *vbase.Rng, length int, capacity uint) []c
 				ops = append(ops, c11Op{Kind: "verify", Class: "own-signature", Sig: sig, Msg: msg})
 				ops = append(ops, c11Op{Kind: "verify", Class: "own-signature-other-message", Sig: sig, Msg: append([]byte("z"), msg...)})
 			}
+			// messages related by hashing: the cache works with digests of messages, so a signature over the 32-byte digest of
+			// X must not pass as a signature over X (nor the other way round)
+			x := rng.Bytes(rng.Range(1, 40))
+			dx := sha256.Sum256(x)
+			if sig, err := d.cached.Sign(dx[:]); err == nil {
+				ops = append(ops, c11Op{Kind: "verify", Class: "own-signature-over-digest-presented-for-preimage", Sig: sig, Msg: x})
+				ops = append(ops, c11Op{Kind: "verify", Class: "own-signature-over-digest", Sig: sig, Msg: dx[:]})
+			}
+			if sig, err := d.cached.Sign(x); err == nil {
+				ops = append(ops, c11Op{Kind: "verify", Class: "own-signature-presented-for-its-digest", Sig: sig, Msg: dx[:]})
+			}
+			ids := pickIDs(rng.Range(1, n))
+			ops = append(ops, c11Op{Kind: "verify", Class: "honest", Sig: w.assemble(honest(ids, dx[:]), nil, 0), Msg: dx[:]})
+			ops = append(ops, c11Op{Kind: "verify", Class: "replay-digest-signature-for-preimage", Sig: w.assemble(honest(ids, dx[:]), nil, 0), Msg: x})
 		}
 	}
 	return ops
